@@ -1,5 +1,5 @@
 (* C01 — formatting preserves the syntax tree. Statements, `exact` proofs, pins, assumption reports. *)
-From TV Require Import Conv Format Render RenderProofs SeqProofs ConvProofs ParenProofs MarkupProofs MathProofs Post FlowProofs ListProofs ChainProofs Sig SigLayout SigTree.
+From TV Require Import Conv Format Render RenderProofs SeqProofs ConvProofs ParenProofs MarkupProofs MathProofs Post FlowProofs ListProofs ChainProofs Sig SigLayout SigTree SigScope SigConv Attr.
 
 (* The full property mentions re-parsing; the parser is outside the model (DESIGN.md section 3), so the
    full statement is given over an abstract parser and an abstract skeleton. It is NOT proved: what is
@@ -198,3 +198,28 @@ Example C01_example_signature :
   exists d n, convert_root (fun s => N.of_nat (length s)) CliGen.cfg_default ex_call = Ok (d, n) /\
               sig_check ex_call d = true /\ tsig ex_call = [35; 102; 49; 50].
 Proof. eexists _, _. vm_compute. repeat split. Qed.
+
+(* the converter conserves the signature: for every tree in the scope `sc` (SigScope.v: per kind, what the proof of its
+   converter needs of the node's shape; kinds whose converter is not yet proved are outside) the document built for the
+   tree is well-signed and has the tree's signature - hence so has every layout of it and the text rendered at any width.
+   `sc (annotate t)` is evaluated by the extracted model on every parsed tree; the check reports the share in scope. *)
+Theorem C01_converter_conserves_signature :
+  forall swidth cfg t d n,
+    reorder_import_items cfg = false -> sc (annotate t) = true ->
+    convert_root swidth cfg t = Ok (d, n) -> dsig d = tsig t /\ wsig d = true.
+Proof. exact convert_root_conserves. Qed.
+Check C01_converter_conserves_signature :
+  forall swidth cfg t d n,
+    reorder_import_items cfg = false -> sc (annotate t) = true ->
+    convert_root swidth cfg t = Ok (d, n) -> dsig d = tsig t /\ wsig d = true.
+Print Assumptions C01_converter_conserves_signature.
+
+Theorem C01_in_scope_every_layout_conserves :
+  forall swidth cfg t d n x,
+    reorder_import_items cfg = false -> sc (annotate t) = true ->
+    convert_root swidth cfg t = Ok (d, n) -> seqs d x -> atoms_sig x = tsig t.
+Proof.
+  intros swidth cfg t d n x Hr Hs Hc Hx. destruct (convert_root_conserves swidth cfg t d n Hr Hs Hc) as [Hd Hw].
+  rewrite <- Hd. apply seqs_sig; assumption.
+Qed.
+Print Assumptions C01_in_scope_every_layout_conserves.
